@@ -182,6 +182,14 @@ for _p in _ALL:
     VARIANTS.append({'id': f'{_p.lower()}-p-rename-vm-params', 'prop': _p, 'kind': 'preserve', 'edits': [],
                      'transform': ('rename', F, {'stack': 'stk', 'cache': 'regs', 'sig_flag': 'sflag', 'constraint': 'bound',
                                                  'n_items': 'how_many', 'skey_seed': 'seed_bytes'})})
+    VARIANTS.append({'id': f'{_p.lower()}-p-invert-ifs-vm', 'prop': _p, 'kind': 'preserve', 'edits': [],
+                     'transform': ('invert-ifs', [F, C])})
+    VARIANTS.append({'id': f'{_p.lower()}-p-first-arg-temps-vm', 'prop': _p, 'kind': 'preserve', 'edits': [],
+                     'transform': ('first-arg-temps', [F, C])})
+    VARIANTS.append({'id': f'{_p.lower()}-p-invert-ifs-parser-tools', 'prop': _p, 'kind': 'preserve', 'edits': [],
+                     'transform': ('invert-ifs', [P, T])})
+    VARIANTS.append({'id': f'{_p.lower()}-p-first-arg-temps-parser-tools', 'prop': _p, 'kind': 'preserve', 'edits': [],
+                     'transform': ('first-arg-temps', [P, T])})
     VARIANTS.append({'id': f'{_p.lower()}-p-rename-locals-tools', 'prop': _p, 'kind': 'preserve', 'edits': [],
                      'transform': ('rename', T, {'root': 'tap_root', 'src': 'template_src', 'sig': 'signature_bytes',
                                                  'left_data': 'lhs_bytes', 'right_type': 'rhs_tag'})})
